@@ -976,6 +976,9 @@ func (fr *Frame) applySpec(sc *Scope, sf *SpecFunc, x *ECall) Val {
 	}
 	if sf.Body != nil {
 		n := *sc
+		if p := fr.en.typesPkg(sf.PkgPath); p != nil {
+			n.pkg = p // names in the body resolve in the package that declares the spec function
+		}
 		n.vars = make(map[string]Val, len(sc.vars)+len(args))
 		for k, v := range sc.vars {
 			n.vars[k] = v
@@ -993,11 +996,22 @@ func (fr *Frame) applySpec(sc *Scope, sf *SpecFunc, x *ECall) Val {
 	var sorts []string
 	var ts []Term
 	for _, a := range args {
-		if a.K != KNormal || len(a.C) != 1 {
-			cfail("uninterpreted spec function %s takes scalar arguments only", sf.Name)
+		if a.K != KNormal {
+			cfail("uninterpreted spec function %s: unsupported argument", sf.Name)
 		}
-		sorts = append(sorts, a.C[0].Sort)
-		ts = append(ts, a.C[0])
+		if isByteSlice(a.T) || isString(a.T) {
+			// a byte string argument is passed by content: (array, offset, length)
+			h := fr.heap(sc.st, elemHeap(types.Typ[types.Uint8], ""), byteHeapSort)
+			for _, t := range []Term{Select(h, a.Obj()), a.Off(), a.Len()} {
+				sorts = append(sorts, t.Sort)
+				ts = append(ts, t)
+			}
+			continue
+		}
+		for _, t := range a.C {
+			sorts = append(sorts, t.Sort)
+			ts = append(ts, t)
+		}
 	}
 	rs := fr.en.layout(rt)[0].Sort
 	f := fr.ctx.Func("spec:"+sf.Name, sorts, rs)
